@@ -159,8 +159,8 @@ def decoy_model(env, recipe, salt=0):
             from optyx.core.compiler import compile_expression, compile_gradient
             V = sorted(e.get_variables(), key=lambda v: natural_key(v.name))
             x = np.linspace(0.6, 1.4, max(len(V), 1))[:len(V)]
-            for fn in (lambda: [gradient(e, v) for v in V[:8]], lambda: compile_expression(e, V)(x),
-                       lambda: compile_gradient(e, V)(x), lambda: compile_jacobian([e], V)(x),
+            for fn in (lambda: [gradient(e, v) for v in (V[:8] if len(V) <= 40 else V[:2])], lambda: compile_expression(e, V)(x),
+                       lambda: compile_gradient(e, V)(x) if len(V) <= 40 else None, lambda: compile_jacobian([e], V)(x) if len(V) <= 40 else None,
                        lambda: e.evaluate({v.name: 1.1 for v in V}), lambda: e.degree,
                        lambda: compile_hessian(e, V)(x) if len(V) <= 12 else None):
                 try:
